@@ -128,6 +128,8 @@ def cast_arguments(cfg):
         return numpy.int64(req), px, r0, L0, numpy.int32(par)
     if cast == "smallint":      # the smallest signed type that holds the requested size (n*n does not fit for n >= 12), 16 bits for the depth
         return (numpy.int16(req) if req > 127 else numpy.int8(req)), px, r0, L0, numpy.int16(par)
+    if cast == "uint8":         # an 8-bit unsigned size (round 6): n_columns * nx_size does not fit the type for sizes >= 128
+        return numpy.uint8(req), px, r0, L0, numpy.uint8(par)
     if cast == "npfloat":
         return numpy.int32(req), numpy.float64(px), numpy.float64(r0), numpy.float64(L0), par
     if cast == "f32":
@@ -1051,6 +1053,12 @@ def cast_twins(chk, rng, quick):
     for k in range(10 if quick else 80):
         cfg = gen_cfg(rng, 12 if quick else 24)
         cast = ("pyint", "npint", "npfloat", "zerod")[k % 4] if k % 8 < 4 else "pyint"
+        if k % 8 == 5:
+            # sizes 128 … 255 as numpy.uint8 with the stencil depth in the same type: products of the two wrap in 8 bits (seeded change
+            # C05-L built the von Karman stencil from numpy.arange(n_columns * nx_size): 2·200 -> 144 points, all in row 0)
+            cast = "uint8"
+            cfg = with_par(gen_cfg(rng, 12, variant=rng.choice(VARIANTS + ("vk",))), 2)
+            cfg["req"] = rng.choice([129, 130, 150, 200])
         if cast == "pyint":         # whole metres: pixel 1 … 3 m, outer scale a few … 40 pixels
             cfg["px"] = float(rng.choice([1, 1, 2, 3]))
             cfg["L0"] = float(cfg["px"] * rng.choice([2, 3, 5, 8, 13, 20, 40]))
@@ -1090,6 +1098,41 @@ def cast_twins(chk, rng, quick):
         if bad:
             chk.fail("cast-twin:%s:%s" % (cfg["variant"], cast), "%s(nx=%r, pixel_scale=%r, r0=%r, L0=%r) with the arguments as %s and the twin with "
                      "the same values as Python floats (same seed): %s" % (cfg["variant"], req, px, r0, L0, cast, bad), rep)
+
+
+def sibling_r0(chk, rng, quick):
+    """screens of ONE geometry and outer scale built one after the other with different r0 (the layers of one atmosphere): the matrix A
+    is the same for all of them and B·Bᵀ scales as r0^(-5/3) — exactly, both follow from the covariance being r0^(-5/3) times a function
+    of the geometry and L0.  (Seeded change C05-K kept A and B in a module-level memo keyed on geometry and L0 only: later screens
+    drove their recursion with the first screen's B; every history clause compares an object with its OWN matrices.)"""
+    for k in range(4 if quick else 40):
+        cfg = gen_cfg(rng, 10 if quick else 20)
+        r0s = [cfg["r0"], cfg["r0"] * rng.choice([0.25, 0.5, 2.0, 4.0]), cfg["r0"] * rng.choice([0.125, 3.0])]
+        mats = []
+        chk.oracle_cases += 1
+        chk.count("oracle:sibling-r0")
+        chk.case(("sibling-r0", json.dumps(cfg, sort_keys=True), r0s))
+        for r0 in r0s:
+            try:
+                ps, _ = construct(dict(cfg, r0=r0))
+            except Exception:
+                mats = []
+                break
+            A, B = numpy.array(ps.A_mat, dtype=float), numpy.array(ps.B_mat, dtype=float)
+            mats.append((r0, A, B @ B.T))
+        for r0, A, Q in mats[1:]:
+            r00, A0, Q0 = mats[0]
+            want = Q0 * (r0 / r00) ** (-5. / 3)
+            ok = A.shape == A0.shape and numpy.all(numpy.abs(A - A0) <= 1e-7 * max(1.0, float(numpy.max(numpy.abs(A0))))) and \
+                numpy.all(numpy.abs(Q - want) <= 1e-7 * float(numpy.max(numpy.abs(want))) + 1e-300)
+            if not ok:
+                chk.fail("sibling-r0:%s" % cfg["variant"], "%s screens of one geometry (nx=%r, pixel_scale=%r, L0=%r) built one after the other with "
+                         "r0 = %r and then r0 = %r: A must be equal and B·Bᵀ scale by (r0'/r0)^(-5/3); A differs by %.3g, B·Bᵀ is off by %.3g of its "
+                         "largest entry" % (cfg["variant"], cfg["req"], cfg["px"], cfg["L0"], r00, r0,
+                                            float(numpy.max(numpy.abs(A - A0))) if A.shape == A0.shape else float("nan"),
+                                            float(numpy.max(numpy.abs(Q - want)) / numpy.max(numpy.abs(want))) if Q.shape == want.shape else float("nan")),
+                         {"cfg": cfg, "r0_sequence": r0s})
+                break
 
 
 def round5_histories(chk, rng, quick, maxn):
@@ -1285,6 +1328,7 @@ def run(chk):
     r5 = random.Random(chk.seed * 1000003 + 50505)
     round5_histories(chk, r5, quick, maxn)
     cast_twins(chk, r5, quick)
+    sibling_r0(chk, r5, quick)
     # the stability clause for pixels of the order of / larger than the outer scale, for other absolute scales and r0 from 1 mm to
     # 30 m, for stencils deeper than 4 rows up to the whole screen and beyond, and for screens wider than 33 pixels (RES_TOL / DEV_TOL
     # unchanged; observed on these classes over 12 seeds x 33 configurations: residual <= 3.9e-11, deviation <= 7.7e-7: >= 128x margin)
